@@ -290,13 +290,13 @@ func c07Concurrent(seed string) string {
 	src := func(g, i int) string {
 		switch i % 4 {
 		case 0:
-			return fmt.Sprintf("v%d_%d_%d := w%d + %d", n, g, i, i, i)
+			return fmt.Sprintf("v%dx%dx%d := w%d + %d", n, g, i, i, i)
 		case 1:
-			return fmt.Sprintf("if c%d_%d_%d { f%d(\"s%d\") } else { ) }", n, g, i, i, i)
+			return fmt.Sprintf("if c%dx%dx%d { f%d(\"s%d\") } else { ) }", n, g, i, i, i)
 		case 2:
-			return fmt.Sprintf("for x%d_%d in {\"k%d_%d\" : %d} { }", g, i, g, i, i)
+			return fmt.Sprintf("for x%dx%d in {\"k%dx%d\" : %d} { }", g, i, g, i, i)
 		default:
-			return fmt.Sprintf("func q%d_%d_%d(a%d) { return a%d } z%d", n, g, i, i, i, i)
+			return fmt.Sprintf("func q%dx%dx%d(a%d) { return a%d } z%d", n, g, i, i, i, i)
 		}
 	}
 	one := func(s string) string {
